@@ -134,7 +134,8 @@ def main(tier):
     for cls in ("UNet", "ResNet", "DilResNet"):
         cand = [c for c in cases if scalar_pseudo(c) and c["admissible"] and c["cfg"]["equiv"] and c["stuck"] == "" and c["cfg"]["cls"] == cls
                 and core.canon(c["cfg"]) not in picked and not (cls == "DilResNet" and (c["cfg"]["blocks"] > 1 or min(c["cfg"]["dims"]) in (4, 8, 16)))
-                and (cls == "UNet" or max(c["cfg"]["dims"]) <= 8) and min(c["cfg"]["dims"]) // (2 ** c["cfg"]["ndown"] if cls == "UNet" else 1) >= 4]
+                and (cls == "UNet" or max(c["cfg"]["dims"]) <= 8) and min(c["cfg"]["dims"]) // (2 ** c["cfg"]["ndown"] if cls == "UNet" else 1) >= 4
+                and (cls != "UNet" or c["cfg"]["ndown"] >= 1)]            # the U-Net of this kind must pool (norm-based pooling of a pseudoscalar)
         cand.sort(key=c20.cost)
         cand = cand[: max(4, len(cand) // 6)]
         picks += rng.sample(cand, min(1 if tier == "quick" else 6, len(cand)))
